@@ -160,10 +160,12 @@ func greedyParts(f family, text string) int {
 // text generator
 
 var multiUnit = map[family][]string{
-	famGSM7U: {"[", "]", "{", "}", "^", "~", "|", "\\", "€", "\f", "\r", "@", "\r["},
-	famGSM7P: {"[", "]", "{", "}", "^", "~", "|", "\\", "€", "\f", "\r", "@", "\r["},
-	famUCS2:  {"😀", "𝄞", "𠀀", "🚀", "🏳\ufe0f", "👨\u200d👩", "😀\u0301", "❤\ufe0f", "e\u0301", "\ufe0f", "\u200d", "👍🏽"},
-	famGBK:   {"中", "文", "😀", "À", "𠀀", "é"},
+	famGSM7U:  {"[", "]", "{", "}", "^", "~", "|", "\\", "€", "\f", "\r", "@", "\r["},
+	famGSM7P:  {"[", "]", "{", "}", "^", "~", "|", "\\", "€", "\f", "\r", "@", "\r["},
+	famASCII:  {"\x1b", "\x00", "\x7f", "\r"},
+	famLatin1: {"\x1b", "\x00", "\x7f", "\u20ac", "\u2019", "\u2026", "\u0152"},
+	famUCS2:   {"\ufeff", "\ufffe", "\x1b", "😀", "𝄞", "𠀀", "🚀", "🏳\ufe0f", "👨\u200d👩", "😀\u0301", "❤\ufe0f", "e\u0301", "\ufe0f", "\u200d", "👍🏽"},
+	famGBK:    {"中", "文", "😀", "À", "𠀀", "é", "\x1b", "€"},
 }
 
 // GB18030 characters on the edges of the octet classes (lead 0x81 / 0xFE, trail 0x40 / 0x7E / 0x80 / 0xFE, the
@@ -322,7 +324,7 @@ type airPart struct {
 var magicPrefix = map[family][]string{
 	famGSM7U:  {"é@¥xza", "ùòèxxza", "é@¥"},
 	famGSM7P:  {"é@¥xza", "ùòèxxza", "é@¥"},
-	famUCS2:   {"\u0500\u03a9\u7a61", "\u0608\u0410\u7a61\u0141", "\u0500\u0300"},
+	famUCS2:   {"\u0500\u03a9\u7a61", "\u0608\u0410\u7a61\u0141", "\u0500\u0300", "\ufeff", "\ufffe", "\ufeffa"},
 	famASCII:  {"\x05\x00\x03xza", "\x06\x08\x04xxza"},
 	famLatin1: {"\x05\x00\x03xza", "\x06\x08\x04xxza"},
 	famGBK:    {"\x05\x00\x03xza", "\x06\x08\x04xxza"},
@@ -983,6 +985,28 @@ func (h *handset) display(m *lsMsg, parts []airPart, payloads [][]byte) {
 				return
 			}
 			sb.WriteString(t)
+			// a downstream gateway built on this library decodes the part with the library's own content decoder:
+			// it must see the same characters as the reference decoder does
+			if !m.vendor && m.actual >= 0 && m.actual <= 255 {
+				var lt string
+				var lerr error
+				ctx := context.Background()
+				pp := h.r.Call("DecodeContent", func() {
+					if m.proto == "smpp" {
+						lt, lerr = protocol.DecodeSMPPCContent(ctx, string(p), m.actual)
+					} else {
+						lt, lerr = protocol.DecodeCMPPCContent(ctx, string(p), uint8(m.actual))
+					}
+				})
+				if pp != nil {
+					r.Fail("C14", "panic", pp.Frame, pp.Kind, "the library's content decoder on part %d of %d: %s", i+1, len(payloads), pp.Value)
+					return
+				}
+				if lerr != nil || lt != t {
+					r.Fail("C14", "part-decodes-differently", m.proto+"/"+famName[f], "library-decoder", "part %d of %d: the library's content decoder gives %q (%v), the reference decoder %q", i+1, len(payloads), trunc(lt, 24), lerr, trunc(t, 24))
+					return
+				}
+			}
 		}
 		if sb.String() != text {
 			for _, prop := range []string{"C14", "C06"} {
